@@ -98,7 +98,7 @@ Lemma Irw_step : forall c s t e s', Irw s -> step c s t e = Some s' -> Irw s'.
 Proof.
   intros c s t e s' I H. unfold Irw in *.
   tcases H; simpl in *; intros u Hu; auto;
-    try (apply remove1_In in Hu; destruct Hu as [Hu _]; auto; fail);
+    try (apply remove_first_sub in Hu; auto; fail);
     try (apply in_or_app; apply in_app_or in Hu; destruct Hu as [Hu|Hu]; [left; apply I; assumption|right; assumption]);
     try (apply in_or_app; left; apply I; assumption).
 Qed.
@@ -110,12 +110,50 @@ Proof.
     (apply NoDup_app_snoc; [exact I|]; intros Hin; apply IW in Hin; rewrite E4 in Hin; discriminate Hin).
 Qed.
 
-Lemma Iregs_step : forall c s t e s', Iregs c s -> step c s t e = Some s' -> Iregs c s'.
+(* the threads of iwtp_start occupy the first num_threads positions of tp->threads for ever; hence the index that a thread
+   found for itself in its prologue - although it may be stale later - still tells pool threads from overflow threads *)
+Definition Ipre (c : cfg) (s : st) : Prop :=
+  exists rest, regs s = seq 0 (nthreads c) ++ rest /\ forall r, In r rest -> nthreads c <= r.
+Definition Iix (c : cfg) (s : st) : Prop :=
+  forall t, loop_pc (pc (th s t)) = true -> (ix (th s t) < nthreads c <-> t < nthreads c).
+
+Lemma notin_seq0 : forall t n, n <= t -> ~ In t (seq 0 n).
+Proof. intros t n H Hin. apply in_seq in Hin. lia. Qed.
+
+Lemma Iix_ovf : forall c s t, Iix c s -> loop_pc (pc (th s t)) = true -> nthreads c <= ix (th s t) -> nthreads c <= t.
+Proof. intros c s t I Hl Hx. destruct (I t Hl) as [_ B]. destruct (Nat.lt_ge_cases t (nthreads c)) as [L|G]; [specialize (B L); lia|exact G]. Qed.
+
+Lemma Ipre_step : forall c s t e s', Iix c s -> Ipre c s -> step c s t e = Some s' -> Ipre c s'.
 Proof.
-  intros c s t e s' I H. unfold Iregs in *.
+  intros c s t e s' IX I H. unfold Ipre in *. destruct I as (rest & Er & Hr).
+  tcases H; simpl in *; try (exists rest; split; assumption).
+  - exists (rest ++ [child]). split; [rewrite Er, app_assoc; reflexivity|].
+    intros r Hin. apply in_app_or in Hin. destruct Hin as [Hin|[<-|[]]]; [apply Hr; exact Hin|assumption].
+  - exists (remove_first t rest). split.
+    + rewrite Er. apply remove_first_app_notin. apply notin_seq0. apply (Iix_ovf c s t IX); [rewrite E; reflexivity|assumption].
+    + intros r Hin. apply Hr. eapply remove_first_sub. exact Hin.
+Qed.
+
+Lemma Iix_step : forall c s t e s', Ipre c s -> Iix c s -> step c s t e = Some s' -> Iix c s'.
+Proof.
+  intros c s t e s' IP I H. unfold Iix in *.
+  tcases H; intros u Hu; assert (Iu := I u); assert (It := I t); thr_cases u; rw_facts; try discriminate; auto;
+    try (apply It; reflexivity).
+  (* the prologue: idx = find_first self *)
+  destruct IP as (rest & Er & Hr). rewrite Er in E2.
+  destruct (Nat.lt_ge_cases t (nthreads c)) as [L|G].
+  - rewrite find_first_seq in E2 by exact L. inversion E2; subst. tauto.
+  - rewrite find_first_app_r in E2 by (apply notin_seq0; exact G). rewrite seq_length in E2.
+    destruct (find_first t rest); [|discriminate]. inversion E2; subst. split; intros; lia.
+Qed.
+
+Lemma Iregs_step : forall c s t e s', Iix c s -> Iregs c s -> step c s t e = Some s' -> Iregs c s'.
+Proof.
+  intros c s t e s' IX I H. unfold Iregs in *.
   tcases H; simpl in *; intros w Hw; auto;
-    try (apply remove1_In; split; [apply I; assumption|lia]);
     try (apply in_or_app; left; apply I; assumption).
+  apply remove_first_keeps; [apply I; assumption|]. intros ->.
+  assert (X := Iix_ovf c s t IX). rewrite E in X. specialize (X eq_refl). lia.
 Qed.
 
 Lemma Iwk_step : forall c s t e s', Iwk s -> step c s t e = Some s' -> Iwk s'.
@@ -123,8 +161,9 @@ Proof.
   intros c s t e s' I H. unfold Iwk in *.
   tcases H; intros u Hu; assert (It := I t); thr_cases u; rw_facts; try discriminate; auto;
     try (apply It; reflexivity);
-    try (apply remove1_In; split; [apply I; assumption|congruence]);
-    try (apply in_or_app; left; apply I; assumption).
+    try (apply remove_first_keeps; [apply I; assumption|congruence]);
+    try (apply in_or_app; left; apply I; assumption);
+    try (destruct (in_dec Nat.eq_dec t (regs s)) as [Hin|Hnin]; [exact Hin|apply find_first_none in Hnin; congruence]).
 Qed.
 
 (* ---- fresh task ids, partition ---- *)
@@ -323,15 +362,16 @@ Qed.
 Definition Idead (c : cfg) (s : st) : Prop :=
   chk c = true -> forall w, w < nthreads c -> pc (th s w) = TExit \/ pc (th s w) = TDead -> shut s = true /\ queue s = [].
 
-Lemma Idead_step : forall c s t e s', Iregs c s -> Idead c s -> step c s t e = Some s' -> Idead c s'.
+Lemma Idead_step : forall c s t e s', Iix c s -> Iregs c s -> Idead c s -> step c s t e = Some s' -> Idead c s'.
 Proof.
-  intros c s t e s' IR I H. unfold Idead in *. intros Hc w Hw Hp.
+  intros c s t e s' IX IR I H. unfold Idead in *. intros Hc w Hw Hp.
   tcases H; thr_cases w; rw_facts;
     try (destruct Hp as [Hp|Hp]; discriminate Hp); try lia;
     try (destruct (I Hc w Hw Hp) as [I1 I2]); rw_facts; auto; try congruence; try discriminate;
     try (split; auto; fail);
     try (apply (I Hc t Hw); left; assumption);
-    try (exfalso; match goal with H : ~ In ?x (regs _) |- _ => apply H; apply IR; assumption end).
+    try (exfalso; match goal with H : find_first ?x (regs _) = None |- _ => apply find_first_none in H; apply H; apply IR; assumption end);
+    try (exfalso; assert (X := Iix_ovf c s t IX); rewrite E in X; specialize (X eq_refl); lia).
 Qed.
 
 (* ---- shutdown thread: flag set from the broadcast on; a thread that has just linked a task saw the flag clear ---- *)
@@ -385,7 +425,8 @@ Proof.
     try (apply (prejoin_regs s w IW); unfold prejoin; exact Hw);
     try discriminate Su;
     try (destruct (It w Hw) as [X|X]; [subst; rewrite E3 in Hw; discriminate Hw|exact X]);
-    try (apply Iu; rewrite E; apply memb_true; assumption).
+    try (apply Iu; rewrite E; apply memb_true; assumption);
+    try (apply Iu; rewrite E; apply memb_true; eapply find_first_some_In; eassumption).
 Qed.
 
 Definition Idw (s : st) : Prop := disc s = [] \/ (shut s = true /\ shut_wait s = false).
@@ -417,7 +458,7 @@ Proof.
 Qed.
 
 Record Inv (c : cfg) (s : st) : Prop := mkInv {
-  i_q : Iq s; i_lim : Ilim c s; i_ww : Iww s; i_nw : Inw s; i_rw : Irw s; i_regs : Iregs c s; i_wk : Iwk s;
+  i_q : Iq s; i_lim : Ilim c s; i_ww : Iww s; i_nw : Inw s; i_rw : Irw s; i_pre : Ipre c s; i_ix : Iix c s; i_regs : Iregs c s; i_wk : Iwk s;
   i_used : Iused s; i_fresh : Ifresh s; i_part : Ipart s; i_dead : Idead c s; i_shutq : Ishutq s; i_penq : Ipenq c s;
   i_join : Ijoin c s; i_dw : Idw s; i_accpc : Iaccpc s; i_acc : Iacc s }.
 
@@ -438,6 +479,8 @@ Proof.
   - intros t Ht. simpl in Ht. apply in_seq in Ht. rewrite init_pc. destruct (Nat.ltb_spec t (nthreads c)); [reflexivity|lia].
   - apply seq_NoDup.
   - intros t Ht. exact Ht.
+  - exists []. split; [simpl; rewrite app_nil_r; reflexivity|intros r []].
+  - intros t Ht. rewrite init_pc in Ht. destruct (t <? nthreads c); discriminate Ht.
   - intros w Hw. simpl. apply in_seq. lia.
   - intros t Ht. rewrite init_pc in Ht. destruct (t <? nthreads c); discriminate Ht.
   - intros x [].
@@ -462,6 +505,8 @@ Proof.
   - eapply Iww_step; eauto.
   - eapply Inw_step; eauto.
   - eapply Irw_step; eauto.
+  - eapply Ipre_step; eauto.
+  - eapply Iix_step; eauto.
   - eapply Iregs_step; eauto.
   - eapply Iwk_step; eauto.
   - eapply Iused_step; eauto.
@@ -562,19 +607,24 @@ Definition Inlw (c : cfg) (s : st) : Prop :=
 Definition Ipsig (c : cfg) (s : st) : Prop :=
   forall t, owner s = Some t -> pc (th s t) = PSig -> ~ allparked c s.
 
-Lemma Iwc_step : forall c s t e s', Iwc c s -> step c s t e = Some s' -> Iwc c s'.
+Lemma Iix_base : forall c s t, Iix c s -> loop_pc (pc (th s t)) = true -> ix (th s t) < nthreads c -> t < nthreads c.
+Proof. intros c s t I Hl Hx. apply (I t Hl). exact Hx. Qed.
+
+Lemma Iwc_step : forall c s t e s', Iix c s -> Iwc c s -> step c s t e = Some s' -> Iwc c s'.
 Proof.
-  intros c s t e s' I H. unfold Iwc in *.
+  intros c s t e s' IX I H. unfold Iwc in *.
   tcases H; simpl in *; intros v Hv; try contradiction; try (apply remove1_In in Hv; destruct Hv as [Hv _]); auto;
-    try (destruct Hv as [<-|Hv]; [lia|auto]).
+    try (destruct Hv as [<-|Hv]; [|auto]); try lia.
+  apply (Iix_base c s t IX); [rewrite E; reflexivity|assumption].
 Qed.
 
 Definition Itw (c : cfg) (s : st) : Prop := forall t, pc (th s t) = TWait -> t < nthreads c.
 
-Lemma Itw_step : forall c s t e s', Itw c s -> step c s t e = Some s' -> Itw c s'.
+Lemma Itw_step : forall c s t e s', Iix c s -> Itw c s -> step c s t e = Some s' -> Itw c s'.
 Proof.
-  intros c s t e s' I H. unfold Itw in *.
+  intros c s t e s' IX I H. unfold Itw in *.
   tcases H; intros u Hu; thr_cases u; rw_facts; try discriminate; auto; try lia.
+  apply (Iix_base c s t IX); [rewrite E; reflexivity|assumption].
 Qed.
 
 Lemma ap_nil : forall c s, nthreads c > 0 -> waitc s = [] -> ~ allparked c s.
@@ -612,18 +662,26 @@ Proof.
     try (destruct I as [I|[]]; left; exact I).
 Qed.
 
+Definition Inv2 (c : cfg) (s : st) : Prop := Inv c s /\ Iwc c s /\ Itw c s /\ Ipsig c s /\ Inlw c s.
+
+Lemma Inv2_R : forall c s, nthreads c > 0 -> R c s -> Inv2 c s.
+Proof.
+  intros c s Hn H. unfold Inv2.
+  eapply (invariant_reachable st (step c) (fun s => Inv c s /\ Iwc c s /\ Itw c s /\ Ipsig c s /\ Inlw c s)); [| |exact H].
+  - split; [apply Inv_init|]. split; [intros v []|].
+    split; [intros t Ht; rewrite init_pc in Ht; destruct (t <? nthreads c); discriminate Ht|].
+    split; [intros t Ht; discriminate Ht|].
+    intros A. left. reflexivity.
+  - intros s0 t e s1 (V & A & B & C & D) Hs. assert (IX := i_ix c s0 V).
+    split; [eapply Inv_step; eauto|]. split; [eapply Iwc_step; eauto|]. split; [eapply Itw_step; eauto|].
+    split; [eapply Ipsig_step; eauto|eapply Inlw_step; eauto].
+Qed.
+
 Theorem no_lost_wakeup : forall c s, nthreads c > 0 -> R c s -> owner s = None -> queue s <> [] ->
   exists w, w < nthreads c /\ ~ In w (waitc s).
 Proof.
   intros c s Hn H Ho Hq.
-  assert (X : Iwc c s /\ Itw c s /\ Ipsig c s /\ Inlw c s).
-  { eapply (invariant_reachable st (step c) (fun s => Iwc c s /\ Itw c s /\ Ipsig c s /\ Inlw c s)); [| |exact H].
-    - split; [intros v []|]. split; [intros t Ht; rewrite init_pc in Ht; destruct (t <? nthreads c); discriminate Ht|].
-      split; [intros t Ht; discriminate Ht|].
-      intros A. left. reflexivity.
-    - intros s0 t e s1 (A & B & C & D) Hs. split; [eapply Iwc_step; eauto|]. split; [eapply Itw_step; eauto|].
-      split; [eapply Ipsig_step; eauto|eapply Inlw_step; eauto]. }
-  destruct X as (_ & _ & _ & I).
+  destruct (Inv2_R c s Hn H) as (_ & _ & _ & _ & I).
   (* not all parked, by contradiction on the decidable finite search *)
   assert (D : forall n, (forall w, w < n -> In w (waitc s)) \/ exists w, w < n /\ ~ In w (waitc s)).
   { induction n as [|n [IH|[w [Hw1 Hw2]]]].
